@@ -58,6 +58,20 @@ func init() {
 		vpkg + "Concrete": func(e *Exec, st *State, fv FuncV, a []Value, cc *ssa.CallCommon) Value {
 			return e.c.Const(64, e.concretize(st, a[0].(*Term), "v.Concrete"))
 		},
+		vpkg + "crashBegin": func(e *Exec, st *State, fv FuncV, a []Value, cc *ssa.CallCommon) Value {
+			g := st.fs()
+			g.armed, g.crashed, g.ops = true, false, 0
+			g.crashAt = int(int64(e.concretize(st, a[0].(*Term), "crash point index")))
+			return nil
+		},
+		vpkg + "crashEnd": func(e *Exec, st *State, fv FuncV, a []Value, cc *ssa.CallCommon) Value {
+			g := st.fs()
+			g.armed = false
+			return e.c.Bool(g.crashed)
+		},
+		vpkg + "FSOps": func(e *Exec, st *State, fv FuncV, a []Value, cc *ssa.CallCommon) Value {
+			return e.c.Const(64, uint64(st.fs().ops))
+		},
 		vpkg + "Note": func(e *Exec, st *State, fv FuncV, a []Value, cc *ssa.CallCommon) Value { return nil },
 
 		// ---- builtins ----
